@@ -212,6 +212,8 @@ class StreamManager:
                 )
                 async for response in response_iterable:
                     self._response_demux.publish(response)
+                # The server closed the stream: the requests in flight get no response on it.
+                raise google_exceptions.ServiceUnavailable('The stream was closed by the server.')
             except asyncio.CancelledError:
                 await request_queue.put(None)
                 break
